@@ -98,61 +98,7 @@ def run(ctx):
         if e.kind == "stay" and e.consumed != 1:
             r.violate("%s|stay-consumes" % e.state, "a state loops on itself consuming %d bytes: %s" % (e.consumed, e.describe()), shared.state_loc(e.state))
 
-    # ------------------------------------------------------------------ R15.4
-    r = ctx.rule("R15.4", "action preconditions hold on every path (they raise ActionError::internal / debug_assert otherwise): the tag scanner's finish_tag_name only with the tag start marked; the lexer's finish_tag_name / update_tag_name_hash / emit_tag only with a tag token created; is_appropriate_end_tag only with an end tag token", "E-SM must-analysis + E-AST", floor=20)
-    entries = set(g.text_nodes)
-    ts_ms = impl_methods(idx, "TagScanner", "StateMachineActions")
-    gen_ts = set(n for n, f in ts_ms.items() for fld, e, _ in field_effects(f) if fld == "tag_start" and e == "some")
-    kill_ts = set(n for n, f in ts_ms.items() for fld, e, _ in field_effects(f) if fld == "tag_start" and e in ("none", "take"))
-    need_ts = set(n for n, f in ts_ms.items() if any(m.get("k") == "MethodCall" and m["method"] in ("ok_or_else", "ok_or", "expect", "unwrap") and "tag_start" in (m["recv"].get("s") or "") for m in walk(f.node["body"])))
-    lx_ms = impl_methods(idx, "Lexer", "StateMachineActions")
-    def lex_eff(field):
-        gen, kill = set(), set()
-        for n, f in lx_ms.items():
-            for fld, e, _ in field_effects(f):
-                if fld == field:
-                    (gen if e == "some" else kill if e in ("none", "take") else gen).add(n)
-        return gen, kill
-    gen_tok, kill_tok = lex_eff("current_tag_token")
-    # actions of the lexer that complain when no tag token exists
-    need_tok = set()
-    for n, f in lx_ms.items():
-        src = json.dumps(f.node["body"])
-        if "current_tag_token" in src and ("should exist at this point" in src):
-            need_tok.add(n)
-    cond_ms = impl_methods(idx, "Lexer", "StateMachineConditions")
-    r.analysed.update({"tag_start_gen": sorted(gen_ts), "tag_start_kill": sorted(kill_ts), "requires_tag_start": sorted(need_ts),
-                       "tag_token_gen": sorted(gen_tok), "tag_token_kill": sorted(kill_tok), "requires_tag_token": sorted(need_tok)})
-    if not need_ts or not need_tok or not gen_tok:
-        raise EngineError("R15.4: precondition-bearing actions not found (anchor moved)")
-    for what, gen, kill, need in (("tag_start", gen_ts, kill_ts, need_ts), ("tag token", gen_tok, kill_tok, need_tok)):
-        fact = must_analysis(g, gen, kill, entries)
-        for e in g.edges():
-            nm = e.names()
-            v = fact[e.src]
-            for i, a in enumerate(nm):
-                if a in need:
-                    key = "%s|%s|%s|%s" % (what, e.state, fmt_mask(e.c0), a)
-                    r.inst(key, sample={"needs": what, "action": a, "leaf": e.describe()})
-                    if not v:
-                        r.violate(key, f"{a} can run without {what} having been set on some path: internal error 'should be set/exist at this point' (a debug-assertion panic, a spurious ContentHandlerError in release): {e.describe()}", shared.state_loc(e.state))
-                if a in gen:
-                    v = True
-                elif a in kill:
-                    v = False
-    # is_appropriate_end_tag needs an end tag token: create_end_tag must precede on all paths
-    gen_e = {"create_end_tag"}
-    kill_e = {"create_start_tag"} | kill_tok
-    fact = must_analysis(g, gen_e, kill_e, entries)
-    for st, s in aut.states.items():
-        for l in s["leaves"]:
-            if "is_appropriate_end_tag" in l["conds"]:
-                node = st + ("#body" if s["enter"] is not None else "")
-                key = "end-tag-token|" + st
-                r.inst(key, nontrivial=False)
-                if not fact[node]:
-                    r.violate(key, f"{st} asks is_appropriate_end_tag although no end tag token may exist on some path", shared.state_loc(st))
-                break
+    rule_action_preconditions(ctx, idx, g, aut)
 
     # ------------------------------------------------------------------ R15.2
     r = ctx.rule("R15.2", "panic-site inventory: every panic-capable construct (bounds/overflow/division asserts, unwrap/expect, indexing, split_at, copy_within, drain, insert, explicit panics/asserts) in non-test code is in the reviewed table; guard witnesses of the reviewed high-risk sites still hold", "E-MIR", floor=100)
@@ -345,3 +291,61 @@ def run(ctx):
     return ("Structural part only: progress of the tokenizer automaton for each of the 257 input symbols, must-typestate of the actions' "
             "preconditions over all automaton paths, an inventory of %d panic-capable MIR sites in %d functions against a reviewed table "
             "with re-checked guard witnesses, and the crate's recursion cycles. It does not prove absence of panics." % (sum(sites.values()), len(set(k[0] for k in sites))))
+
+
+def rule_action_preconditions(ctx, idx, g, aut, rid="R15.4"):
+    # ------------------------------------------------------------------ R15.4
+    r = ctx.rule(rid, "action preconditions hold on every path (they raise ActionError::internal / debug_assert otherwise): the tag scanner's finish_tag_name only with the tag start marked; the lexer's finish_tag_name / update_tag_name_hash / emit_tag only with a tag token created; is_appropriate_end_tag only with an end tag token", "E-SM must-analysis + E-AST", floor=20)
+    entries = set(g.text_nodes)
+    ts_ms = impl_methods(idx, "TagScanner", "StateMachineActions")
+    gen_ts = set(n for n, f in ts_ms.items() for fld, e, _ in field_effects(f) if fld == "tag_start" and e == "some")
+    kill_ts = set(n for n, f in ts_ms.items() for fld, e, _ in field_effects(f) if fld == "tag_start" and e in ("none", "take"))
+    need_ts = set(n for n, f in ts_ms.items() if any(m.get("k") == "MethodCall" and m["method"] in ("ok_or_else", "ok_or", "expect", "unwrap") and "tag_start" in (m["recv"].get("s") or "") for m in walk(f.node["body"])))
+    lx_ms = impl_methods(idx, "Lexer", "StateMachineActions")
+    def lex_eff(field):
+        gen, kill = set(), set()
+        for n, f in lx_ms.items():
+            for fld, e, _ in field_effects(f):
+                if fld == field:
+                    (gen if e == "some" else kill if e in ("none", "take") else gen).add(n)
+        return gen, kill
+    gen_tok, kill_tok = lex_eff("current_tag_token")
+    # actions of the lexer that complain when no tag token exists
+    need_tok = set()
+    for n, f in lx_ms.items():
+        src = json.dumps(f.node["body"])
+        if "current_tag_token" in src and ("should exist at this point" in src):
+            need_tok.add(n)
+    cond_ms = impl_methods(idx, "Lexer", "StateMachineConditions")
+    r.analysed.update({"tag_start_gen": sorted(gen_ts), "tag_start_kill": sorted(kill_ts), "requires_tag_start": sorted(need_ts),
+                       "tag_token_gen": sorted(gen_tok), "tag_token_kill": sorted(kill_tok), "requires_tag_token": sorted(need_tok)})
+    if not need_ts or not need_tok or not gen_tok:
+        raise EngineError("R15.4: precondition-bearing actions not found (anchor moved)")
+    for what, gen, kill, need in (("tag_start", gen_ts, kill_ts, need_ts), ("tag token", gen_tok, kill_tok, need_tok)):
+        fact = must_analysis(g, gen, kill, entries)
+        for e in g.edges():
+            nm = e.names()
+            v = fact[e.src]
+            for i, a in enumerate(nm):
+                if a in need:
+                    key = "%s|%s|%s|%s" % (what, e.state, fmt_mask(e.c0), a)
+                    r.inst(key, sample={"needs": what, "action": a, "leaf": e.describe()})
+                    if not v:
+                        r.violate(key, f"{a} can run without {what} having been set on some path: internal error 'should be set/exist at this point' (a debug-assertion panic, a spurious ContentHandlerError in release): {e.describe()}", shared.state_loc(e.state))
+                if a in gen:
+                    v = True
+                elif a in kill:
+                    v = False
+    # is_appropriate_end_tag needs an end tag token: create_end_tag must precede on all paths
+    gen_e = {"create_end_tag"}
+    kill_e = {"create_start_tag"} | kill_tok
+    fact = must_analysis(g, gen_e, kill_e, entries)
+    for st, s in aut.states.items():
+        for l in s["leaves"]:
+            if "is_appropriate_end_tag" in l["conds"]:
+                node = st + ("#body" if s["enter"] is not None else "")
+                key = "end-tag-token|" + st
+                r.inst(key, nontrivial=False)
+                if not fact[node]:
+                    r.violate(key, f"{st} asks is_appropriate_end_tag although no end tag token may exist on some path", shared.state_loc(st))
+                break
